@@ -37,7 +37,9 @@ CfgOf(e) ==
       ks == DistinctKeys(m)
   IN  [kind |-> e.kind, neverStop |-> e.neverStop, hasRpm |-> e.hasRpm, hasPwm |-> e.hasPwm,
        hasMode |-> e.hasMode, gmin |-> e.gmin, mx |-> e.mx, map |-> m, keys |-> ks,
-       wf |-> WriteTable(m, ks), ws |-> WriteSetTable(m, ks), n |-> e.n, alg |-> AlgOf(e.alg)]
+       wf |-> WriteTable(m, ks), ws |-> WriteSetTable(m, ks), n |-> e.n, alg |-> AlgOf(e.alg),
+       \* the driver ignores writes of the control mode (it keeps reporting the mode it had)
+       modeStuck |-> IF "modeStuck" \in DOMAIN e THEN e.modeStuck ELSE FALSE]
 
 InitFrom(e) ==
   /\ cfg = CfgOf(e)
